@@ -31,13 +31,18 @@ type replayEntry struct {
 	Claims      string            `json:"stands_in_for"`
 }
 
+// replayRoot is the directory the replay index was read from; the files it names are relative to it.
+var replayRoot = "/verif"
+
 func loadReplayIndex() []replayEntry {
 	var idx struct {
 		Entries []replayEntry `json:"entries"`
 	}
+	replayRoot = verifRoot
 	data, err := os.ReadFile(filepath.Join(verifRoot, "replay", "index.json"))
 	if err != nil {
-		// the index always lives in the real /verif
+		// the index, and the test files it names, always live in the real /verif (a scratch VERIF_ROOT holds only ledgers)
+		replayRoot = "/verif"
 		data, err = os.ReadFile("/verif/replay/index.json")
 		if err != nil {
 			return nil
@@ -62,7 +67,7 @@ func runReplayTest(o *checkOpts, e replayEntry, thorough bool) testRun {
 	for target, src := range e.Files {
 		s := src
 		if !filepath.IsAbs(s) {
-			s = filepath.Join(verifRoot, src)
+			s = filepath.Join(replayRoot, src)
 		}
 		ov["Replace"][filepath.Join(o.repo, target)] = s
 	}
@@ -159,7 +164,12 @@ func runBounded(o *checkOpts) ([]boundedResult, []violation) {
 		br := boundedResult{Name: e.Name, Bound: e.Bound, Claims: e.Claims, Passed: !tr.Failed, WallS: tr.WallS, Summary: tr.Summary, Cmd: tr.Cmd}
 		out = append(out, br)
 		if tr.Failed {
-			viols = append(viols, violation{Obligation: "bounded:" + e.Name, Reason: "bounded stand-in found a concrete counterexample on the real code: " + firstLine(tr.Summary), Status: "witness", Detail: tr.Output, Confirmed: strings.Contains(tr.Output, "REPLAY-CONFIRMED")})
+			reason := "bounded stand-in found a concrete counterexample on the real code: " + firstLine(tr.Summary)
+			if strings.Contains(tr.Output, "[setup failed]") || strings.Contains(tr.Output, "[build failed]") {
+				// fails closed: a check that cannot be built or run has decided nothing
+				reason = "bounded stand-in could not be built against this tree (no verdict): " + firstLine(tr.Output)
+			}
+			viols = append(viols, violation{Obligation: "bounded:" + e.Name, Reason: reason, Status: "witness", Detail: tr.Output, Confirmed: strings.Contains(tr.Output, "REPLAY-CONFIRMED")})
 		}
 	}
 	return out, viols
